@@ -5,7 +5,7 @@ import ast
 
 import z3
 
-from .values import (ConcatView, SliceView, AbsObj, AList, BoundMethod, Builtin, ClassRef, EnumObj, ExcClass, ExcVal, FuncRef, IterObj, Lambda,
+from .values import (ASet, ConcatView, SliceView, AbsObj, AList, BoundMethod, Builtin, ClassRef, EnumObj, ExcClass, ExcVal, FuncRef, IterObj, Lambda,
                      ModRef, NeedFork, NOTIMPL, Obj, Opt, OutsideSubset, RaiseEx, RangeObj, ReturnEx, SymObj, UNDEF,
                      ZipObj, fresh_name)
 
@@ -344,6 +344,8 @@ class ExprMixin:
                 return self.theory.list_repeat(self, a, b)
         if t in (ast.BitAnd, ast.BitOr, ast.Sub) and isinstance(a, (set, frozenset)) and isinstance(b, (set, frozenset)):
             return {ast.BitAnd: a & b, ast.BitOr: a | b, ast.Sub: a - b}[t]
+        if t in (ast.BitAnd, ast.Sub) and isinstance(a, ASet) and isinstance(b, ASet):
+            return self.aset_op("intersection" if t is ast.BitAnd else "difference", a, b)
         if t not in BINOPS:
             raise OutsideSubset(f"binary operator {t.__name__}")
         name, rname = BINOPS[t]
@@ -684,6 +686,8 @@ class ExprMixin:
             return z3.Exists([i], z3.And(0 <= i, i < container.n, body))
         if isinstance(container, SetVal):
             return self.contains(container.items, item)
+        if isinstance(container, ASet):
+            return self.contains(container.lst, item)
         if isinstance(container, SymObj):
             container = self.concretize(container)
         if isinstance(container, AbsObj):
@@ -766,7 +770,7 @@ class ExprMixin:
             return self.global_lookup(attr, o.minfo)
         if isinstance(o, Builtin):
             return Builtin(o.name + "." + attr)
-        if isinstance(o, (str, list, tuple, dict, set, frozenset, AList, IterObj)) or (z3.is_expr(o)):
+        if isinstance(o, (str, list, tuple, dict, set, frozenset, AList, IterObj, ASet)) or (z3.is_expr(o)):
             return BoundBuiltin(o, attr)
         if self.theory is not None and hasattr(self.theory, "getattr_other"):
             r = self.theory.getattr_other(self, o, attr)
